@@ -791,6 +791,23 @@ def run(ctx):
                    "harness/props/c08.py (generators, three-valued exact oracle, own containment tests, Coq printer)",
                    "IEEE-754 arithmetic of CPython/numpy (rounded; model exact over Q)"]
     mod = __import__("props.c08", fromlist=["x"])
+    ctx.trusted.insert(3, "harness/props/c08_src.py: parser of the syntax trees of GoalRegion._harmonize_state_types, the "
+                          "checks of GoalRegion.is_reached (order, guards, tests) and the frames of is_reached / "
+                          "_check_value_in_interval / PlanningProblem.goal_reached into the statement language of "
+                          "coq/Model/GoalSrc.v, regenerated on every run as coq/Gen/Src_goal.v (fail-closed); "
+                          "C08_reached1_is_source / C08_is_reached_is_source prove that the parsed programs compute reached1 / "
+                          "is_reached of Model/Goal.v (2^9 attribute combinations, tests opaque); trusted: the meaning the "
+                          "interpreter gives to the accepted Python shapes (used_attributes / has_value = attribute not None, "
+                          "a set of names = fld -> bool, deepcopy shares nothing, CustomState(**attributes) keeps every "
+                          "attribute, np.linalg.norm of a 2-vector = hypot; frames compared as text up to local names)")
+    from props import c08_src
+    try:
+        changed = c08_src.generate()
+        ctx.notes.append(f"Gen/Src_goal.v regenerated from the source ({'changed' if changed else 'unchanged'})")
+    except Exception as e:   # SourceShapeError, SyntaxError, OSError: the model is no longer shown to be the source
+        ctx.proof_breaks.append({"theorem": "source parser:Gen/Src_goal.v (C08_reached1_is_source / C08_is_reached_is_source "
+                                            "/ C08_frames_are_source)", "where": "harness/props/c08_src.py", "log": str(e)})
+        ctx.log(f"proof_broken theorem=C08_*_is_source (source parser: {e})")
     ctx.build_props(extra_targets=["Corr/C08.vo"])
     if ctx.tier == "thorough":
         ctx.coqchk()
